@@ -125,6 +125,23 @@ class Ctx:
             "known_findings_hit": self.known_hits,
         }
         cov.update(self.extra)
+        # keys typed by EVIDENCE.schema.json keep their type whatever a check put into ctx.extra: a breakdown given as a
+        # dict/list under an integer key is moved to <key>_detail and the key carries the total
+        typed = {"evaluations": int, "distinct_nontrivial": int, "rule": str, "samples": list, "states": int, "transitions": int,
+                 "traces_validated_against_impl": int, "obligations": int, "discharged": int, "checker_cmd": str,
+                 "trusted_base": list, "programs": int, "disagreements_checked": int, "explanation": str, "exhaustive": bool}
+        for k, t in typed.items():
+            if k in cov and not (isinstance(cov[k], t) and not (t is int and isinstance(cov[k], bool))):
+                v = cov[k]
+                cov[k + "_detail"] = v
+                if t is int:
+                    cov[k] = int(sum(x for x in v.values() if isinstance(x, (int, float)))) if isinstance(v, dict) else (len(v) if isinstance(v, (list, tuple)) else 0)
+                elif t is str:
+                    cov[k] = json.dumps(v) if not isinstance(v, str) else v
+                elif t is list:
+                    cov[k] = [v]
+                elif t is bool:
+                    cov[k] = bool(v)
         vlib.write_evidence(self.prop, self.tier, self.seed, cov, wall, len(self.violations), self.assumptions)
         for h in self.known_hits:
             print("KNOWN-FINDING: property=%s %s" % (self.prop, h["what"]))
